@@ -1,4 +1,5 @@
 import MxModel.Proofs.Capture
+import MxModel.Kernels.DocQuote
 /-!
 # C20 – Formula capture is faithful and idempotent; rename and doc edits are inert
 
@@ -31,8 +32,10 @@ def Parses (parse : Text → Layout) (f : FuncDef) : Prop := parse (render f) = 
 
 /-! ## Capture -/
 
-/-- Specification of capture on the structure: the same definition – signature, parameter
-names, body, comments – with the indentation gone, whitespace-only lines emptied, no
+/-- WHAT the specification `captureS` says, field by field (true by definition of `captureS` – this
+theorem documents the specification, it proves nothing about modelx; the content is
+`capture_text_agrees`: modelx's text algorithm computes this): the same definition – signature,
+parameter names, body, comments – with the indentation gone, whitespace-only lines emptied, no
 decorators, under the cells' name. -/
 theorem capture_spec (f : FuncDef) (n : Line) :
     (captureS f (some n)).pre = [] ∧ (captureS f (some n)).decos = []
@@ -61,7 +64,9 @@ theorem dedent_exact (f : FuncDef) (hwf : f.wf = true) :
     dedent (render f) = render (dedentS f) :=
   dedent_render f hwf
 
-/-- Capturing a captured definition under the same name changes nothing (structure). -/
+/-- Capturing a captured definition under the same name changes nothing (on the specification:
+`captureS` is idempotent – `Body.norm`, `normBlank` are; the statement about modelx's text
+algorithm is `capture_idempotent_text`). -/
 theorem capture_idempotent (f : FuncDef) (n : Line) :
     captureS (captureS f (some n)) (some n) = captureS f (some n) := by
   rw [captureS_captureS]; rfl
@@ -81,7 +86,7 @@ theorem capture_idempotent_text (parse : Text → Layout) (f : FuncDef) (n : Lin
 /-! ## Rename -/
 
 /-- Renaming a cells (`on_rename`: `Formula(self.formula, name=new)`) changes the name field
-and nothing else. -/
+and nothing else (on the specification; for modelx's text algorithm: `rename_inert_text`). -/
 theorem rename_inert (f : FuncDef) (n m : Line) :
     captureS (captureS f (some n)) (some m) = { captureS f (some n) with name := m } := by
   rw [captureS_captureS]; rfl
@@ -94,10 +99,32 @@ theorem rename_inert_text (parse : Text → Layout) (f : FuncDef) (n m : Line)
   rw [captureText_render parse _ (some m) hw (by rw [dedentS_captureS]; exact h3)
     (by rw [dedentS_captureS, undecorate_captureS]; exact h3), rename_inert]
 
-/-- …so renaming back restores the original formula exactly. -/
+/-- …so renaming back restores the original formula exactly (specification). -/
 theorem rename_round_trip (f : FuncDef) (n m : Line) :
     captureS (captureS (captureS f (some n)) (some m)) (some n) = captureS f (some n) := by
   rw [captureS_captureS, captureS_captureS]; rfl
+
+/-- **Rename there and back, on the text**: modelx's text algorithm applied to `formula.source`
+under another name and then under the old one gives `formula.source` back, character by
+character – for every well-formed definition whose two texts the parser reads as the grammar says. -/
+theorem rename_round_trip_text (parse : Text → Layout) (f : FuncDef) (n m : Line)
+    (hwf : f.wf = true) (h3 : Parses parse (captureS f (some n)))
+    (h4 : Parses parse { captureS f (some n) with name := m }) :
+    captureText parse (captureText parse (render (captureS f (some n))) (some m)) (some n)
+      = render (captureS f (some n)) := by
+  rw [rename_inert_text parse f n m hwf h3]
+  have e : { captureS f (some n) with name := m } = captureS (captureS f (some n)) (some m) :=
+    (rename_inert f n m).symm
+  have hw := wf_captureS (captureS f (some n)) (some m) (wf_captureS f (some n) hwf)
+  rw [e] at h4 ⊢
+  rw [captureText_render parse _ (some n) hw (by rw [dedentS_captureS]; exact h4)
+    (by rw [dedentS_captureS, undecorate_captureS]; exact h4), rename_round_trip]
+
+/-- **`formula.source` is a self-contained, dedented definition**: `textwrap.dedent` does nothing
+to it any more (so a second capture starts from the same text), for every well-formed definition. -/
+theorem capture_source_is_dedented (f : FuncDef) (n : Option Line) (hwf : f.wf = true) :
+    dedent (render (captureS f n)) = render (captureS f n) := by
+  rw [dedent_exact _ (wf_captureS f n hwf), dedentS_captureS]
 
 /-- Renaming a cells that has the same-named cells in sub spaces (`rename_cells` loop):
 every entry that is DEFINED in its space – the renamed cells itself and every cells that
@@ -116,7 +143,70 @@ theorem rename_chain_derived_follow (n : Line) (es : List Entry) (i : Nat) (e0 e
       = ((renameChain n none es)[i]?).map (·.formula) :=
   renameChain_derived n es none i e0 e f h0 hi hd hf
 
+/-- the chain is as derivation leaves it: a derived cells with a `def` formula shows the formula of
+the cells before it (`prev`), so the first cells of a chain is a defined one or a lambda -/
+def ChainDerived : Option Formula → List Entry → Prop
+  | _, [] => True
+  | prev, e :: es =>
+    (e.derived = true → (∃ f, e.formula = .fn f) → prev = some e.formula) ∧ ChainDerived (some e.formula) es
+
+theorem renameChain_pointwise (n : Line) : ∀ (es : List Entry) (prev : Option Formula),
+    ChainDerived prev es →
+    renameChain n (prev.map (renameFormula n)) es =
+      es.map (fun e => { e with formula := renameFormula n e.formula }) := by
+  intro es
+  induction es with
+  | nil => intro _ _; rfl
+  | cons e es ih =>
+    intro prev h
+    obtain ⟨h1, h2⟩ := h
+    have ih' := ih (some e.formula) h2
+    simp only [Option.map_some] at ih'
+    simp only [renameChain, List.map_cons]
+    cases hform : e.formula with
+    | lam s p =>
+      rw [hform] at ih'
+      simp only [renameFormula] at ih' ⊢
+      rw [ih']
+    | fn f =>
+      rw [hform] at ih'
+      simp only [renameFormula] at ih' ⊢
+      by_cases hd : e.derived = true
+      · have hp := h1 hd ⟨f, hform⟩
+        rw [hp, hform]
+        simp only [Option.map_some, renameFormula, hd, if_true]
+        rw [ih']
+      · have hd' : e.derived = false := by simpa using hd
+        simp only [hd', Bool.false_eq_true, if_false]
+        rw [ih']
+
+/-- **Renaming commutes with derivation.**  `rename_cells` walks down the chain of same-named cells
+handing each derived cells the (renamed) formula of the cells before it; on a chain that is as
+derivation leaves it, the result is the pointwise rename: EVERY cells of the chain – defined,
+overriding, derived, lambda – shows exactly the formula it showed before, under the new name (a
+lambda: unchanged), and nothing else of the entry changes. -/
+theorem rename_chain_is_pointwise_rename (n : Line) (es : List Entry) (h : ChainDerived none es) :
+    renameChain n none es = es.map (fun e => { e with formula := renameFormula n e.formula }) :=
+  renameChain_pointwise n es none h
+
 /-! ## Documentation -/
+
+/-- the two Lean models of `quote_docstring` (`DocQuote.quoteDocstring`, used by C04 with a model of
+CPython's tokenizer, and `Capture.quoteDocstring`, used here) are one function: both are the loop of
+`quote_docstring` over the escape table read from the code -/
+theorem quote_docstring_one_model (d : List Char) :
+    MxModel.DocQuote.quoteDocstring d = quoteDocstring d := by
+  have hb : ∀ (d : List Char) (q : Nat), MxModel.DocQuote.quoteBody q d = quoteChars q d := by
+    intro d
+    induction d with
+    | nil => intro q; rfl
+    | cons c cs ih =>
+      intro q
+      have he : docEscapes.lookup c = MxModel.DocQuote.escapeOf c := rfl
+      simp only [MxModel.DocQuote.quoteBody, quoteChars, ih, escapeChar, he]
+      cases MxModel.DocQuote.escapeOf c <;> rfl
+  unfold MxModel.DocQuote.quoteDocstring quoteDocstring
+  rw [hb]; rfl
 
 /-- **`quote_docstring` is faithful, for every string**: the triple-quoted literal it builds
 (`"""`, the text with backslashes, NUL, line boundaries other than the line feed, every third
@@ -317,13 +407,22 @@ theorem lambda_object_capture_spec (parse : Text → LamPos) (st : LamStmt)
   unfold captureLambdaObj
   rw [h, extractLambda_render]
 
-/-- the captured lambda text, given back as a source, is reproduced -/
+/-- the lines of a lambda expression standing alone are the statement that consists of it -/
+theorem lambda_alone_render (lam : Span) : ({ lam := lam } : LamStmt).render = lam.lines := by
+  unfold LamStmt.render Span.lines
+  cases lam.more with
+  | none => simp
+  | some p => obtain ⟨mid, last⟩ := p; simp
+
+/-- the captured lambda text, given back as a source, is reproduced (for every lambda expression
+whose whitespace-only lines are already empty – which is what capture leaves – and whose text the
+parser reads as the grammar says) -/
 theorem lambda_capture_idempotent (parse : Text → LamPos) (lam : Span)
     (hn : lam.norm = lam) (hwf : ({ lam := lam } : LamStmt).wf = true)
-    (h : parse ({ lam := lam } : LamStmt).dedentS.render = ({ lam := lam } : LamStmt).dedentS.layout)
-    (hr : ({ lam := lam } : LamStmt).render = lam.lines) :
+    (h : parse ({ lam := lam } : LamStmt).dedentS.render = ({ lam := lam } : LamStmt).dedentS.layout) :
     captureLambdaText parse lam.lines = lam.lines := by
-  rw [← hr, lambda_capture_spec parse _ hwf h, hn, hr]
+  conv => lhs; rw [← lambda_alone_render lam]
+  rw [lambda_capture_spec parse _ hwf h, hn]
 
 /-! ## Non-vacuity: concrete layouts -/
 
@@ -457,6 +556,12 @@ example : captureLambdaText (fun _ => demoLam.dedentS.layout) demoLam.render
 example : captureLambdaObj (fun _ => demoLam.layout) demoLam.render
     = [s "lambda a: (a,", s "  ", s "       2)"] := by decide +kernel
 
+/-- non-vacuity of `lambda_capture_idempotent`: a two-line lambda whose middle line is empty -/
+def lam1 : Span := ⟨s "lambda a: (a,", some ([s ""], s "   2)")⟩
+example : captureLambdaText (fun _ => ({ lam := lam1 } : LamStmt).dedentS.layout) lam1.lines = lam1.lines :=
+  lambda_capture_idempotent _ lam1 (by decide +kernel) (by decide +kernel) rfl
+example : lam1.lines = [s "lambda a: (a,", s "", s "   2)"] := by decide +kernel
+
 /-- Base.foo, Sub overrides foo, SubSub derives from Sub; `Base.foo.rename('bar')` -/
 def demoChain : List Entry :=
   [ { derived := false, formula := .fn plainDef },
@@ -467,6 +572,32 @@ example : (renameChain (s "bar") none demoChain).map (fun e => match e.formula w
       | .fn f => render f | .lam l _ => l) =
     [[s "def bar(x):", s "    return x"], [s "def bar(x, k=3):", s "    return x"],
      [s "def bar(x, k=3):", s "    return x"]] := by decide +kernel
+
+theorem demoChain_derived : ChainDerived none demoChain := by
+  simp [ChainDerived, demoChain]
+example : renameChain (s "bar") none demoChain =
+    demoChain.map (fun e => { e with formula := renameFormula (s "bar") e.formula }) :=
+  rename_chain_is_pointwise_rename _ _ demoChain_derived
+/-- without the hypothesis the statement is false: a chain whose first cells claims to be derived
+keeps its old name -/
+example : renameChain (s "bar") none [{ derived := true, formula := .fn plainDef }] ≠
+    [{ derived := true, formula := renameFormula (s "bar") (.fn plainDef) }] := by decide +kernel
+
+/-- the hypotheses of `rename_round_trip_text` are satisfiable, and the text comes back -/
+example : captureText (fun t => if t = render (captureS demo (some (s "bar"))) then
+        layoutOf (captureS demo (some (s "bar"))) else layoutOf { captureS demo (some (s "bar")) with name := s "baz" })
+      (captureText (fun t => if t = render (captureS demo (some (s "bar"))) then
+          layoutOf (captureS demo (some (s "bar"))) else layoutOf { captureS demo (some (s "bar")) with name := s "baz" })
+        (render (captureS demo (some (s "bar")))) (some (s "baz"))) (some (s "bar"))
+    = render (captureS demo (some (s "bar"))) :=
+  rename_round_trip_text _ demo (s "bar") (s "baz") (by decide) (by simp [Parses])
+    (by
+      unfold Parses
+      have : render { captureS demo (some (s "bar")) with name := s "baz" } ≠ render (captureS demo (some (s "bar"))) := by
+        decide +kernel
+      simp [this])
+example : dedent (render (captureS demo (some (s "bar")))) = render (captureS demo (some (s "bar"))) :=
+  capture_source_is_dedented demo _ (by decide)
 
 /-- The model is bug-faithful about `dedent`: a whitespace-only line inside a string literal
 of the body is emptied and continuation lines of a multi-line string lose the definition's
